@@ -73,13 +73,45 @@ func TestC10GetHelpers(t *testing.T) {
 		wg.Add(1)
 		go func(g int) {
 			defer wg.Done()
+			var prevBody, held []byte
+			heldWant := ""
 			for m := 0; m < M; m++ {
 				id := fmt.Sprintf("g%dm%d", g, m)
 				if (g+m)%2 == 0 {
 					id += "cut"
 				}
-				_, body, err := cl.HC.GetTimeout(context.Background(), nil, "http://example.com/x?id="+id, 2*time.Second)
+				// half of the goroutines hand in a buffer of their own (with capacity), the way the dst
+				// parameter is meant to be used: first a fresh one, then the slice the previous call returned
+				var dst []byte
+				if g%2 == 1 {
+					if prevBody != nil {
+						dst = prevBody[:0]
+					} else {
+						dst = make([]byte, 0, 512)
+					}
+				}
+				var body []byte
+				var err error
+				if g%4 == 3 {
+					_, body, err = cl.HC.Get(context.Background(), dst, "http://example.com/x?id="+id)
+				} else {
+					_, body, err = cl.HC.GetTimeout(context.Background(), dst, "http://example.com/x?id="+id, 2*time.Second)
+				}
 				want := "id=" + id + ";" + strings.Repeat("b", 600)
+				if err == nil {
+					// what a call returned stays what it was while other calls go on
+					if held != nil && string(held) != heldWant {
+						mu.Lock()
+						if len(fails) < 5 {
+							fails = append(fails, fmt.Sprintf("the body a call returned (%d bytes, %.30q...) changed while later calls of other goroutines ran: now %.40q", len(heldWant), heldWant, held))
+						}
+						mu.Unlock()
+					}
+					if g%2 == 0 {
+						held, heldWant = body, want // kept and looked at again after the next successful call
+					}
+					prevBody = body
+				}
 				mu.Lock()
 				if err == nil {
 					okCalls++
